@@ -296,3 +296,26 @@ pub(crate) fn k_picture_type_table() {
         Err(_) => vk_assert!(code > 20, "valid picture type rejected"),
     }
 }
+
+// ---- ChannelMask::from_str is total on short tag values (C12) ----
+#[kani::proof]
+#[kani::unwind(8)]
+pub(crate) fn k_channel_mask_from_str_total() {
+    use std::str::FromStr;
+    let b: [u8; 4] = kani::any();
+    let len: usize = kani::any();
+    kani::assume(len <= 4);
+    if let Ok(s) = std::str::from_utf8(&b[..len]) {
+        let r = ChannelMask::from_str(s);
+        // functional part for the plain form "0x" + hex digits
+        let hexv = |c: u8| -> Option<u32> { match c { b'0'..=b'9' => Some((c - b'0') as u32), b'a'..=b'f' => Some((c - b'a' + 10) as u32), b'A'..=b'F' => Some((c - b'A' + 10) as u32), _ => None } };
+        if len == 4 && b[0] == b'0' && b[1] == b'x' {
+            if let (Some(h), Some(l)) = (hexv(b[2]), hexv(b[3])) {
+                vk_assert!(matches!(r, Ok(ChannelMask { mask }) if mask == h * 16 + l), "\"0x\" followed by hex digits parses to that number");
+            }
+        }
+        if len < 2 || b[0] != b'0' {
+            vk_assert!(r.is_err(), "text without the 0x prefix is rejected, not a panic");
+        }
+    }
+}
